@@ -324,6 +324,9 @@ func renderCfg(c *RCfg) config.ServerConfig {
 			if s.Span.Dest == "refused" {
 				o["destination"] = refusedAddr
 			}
+			if s.Span.Dest == "none" {
+				delete(o, "destination") // the handler factory then builds no handler for the scope
+			}
 			if s.Span.PT != 0 {
 				o["packetType"] = []string{"", "Authenticate", "authorize", "ACCOUNTING"}[s.Span.PT]
 			}
